@@ -195,13 +195,9 @@ impl NewerTimeMatcher {
             .duration_since(UNIX_EPOCH)
             .unwrap_or_else(|e| e.duration());
 
-        // timestamp.as_millis() return u128 but time is i64
-        // This may leave memory implications. :(
-        Ok(self.time
-            <= timestamp
-                .as_millis()
-                .try_into()
-                .expect("timestamp memory implications"))
+        // timestamp.as_millis() is a u128 and time an i64: a file system with
+        // 64-bit time stamps can hold more milliseconds than an i64 does.
+        Ok(i128::from(self.time) <= i128::try_from(timestamp.as_millis()).unwrap_or(i128::MAX))
     }
 }
 
